@@ -12,7 +12,8 @@ cp "$src/patch.diff" "$src/demo.py" "$dst/"; cp "$src/meta.json" "$dst/meta.orig
 wt="/tmp/si_${pid}_${slug}_$$"
 git -C /repo worktree add --detach "$wt" HEAD -q || exit 2
 ( cd "$wt" && PYTHONPATH="$wt" timeout 600 /venv/bin/python "$dst/demo.py" > "$dst/demo_clean.log" 2>&1 ); rc_clean=$?
-if ! git -C "$wt" apply "$dst/patch.diff"; then echo "PATCH-DOES-NOT-APPLY"; git -C /repo worktree remove --force "$wt"; exit 2; fi
+if ! git -C "$wt" apply "$dst/patch.diff" && ! git -C "$wt" apply -3 "$dst/patch.diff"; then echo "PATCH-DOES-NOT-APPLY"; git -C /repo worktree remove --force "$wt"; exit 2; fi
+git -C "$wt" diff HEAD > "$dst/patch.diff"   # as applied to the current HEAD (after a 3-way merge if needed)
 ( cd "$wt" && PYTHONPATH="$wt" timeout 600 /venv/bin/python "$dst/demo.py" > "$dst/demo_patched.log" 2>&1 ); rc_patched=$?
 suite="skipped"
 if [ -z "$nosuite" ]; then
